@@ -144,9 +144,15 @@ def check_verify(case):
     elif mut == "s=0": s = 0
     elif mut == "msg-longer": msg = msg + b"\x00"
     elif mut == "other-key": x = int.from_bytes(b340.pubkey_gen(((q % (N - 1)) + 1).to_bytes(32, "big")), "big")
+    wide = None
+    if case["sig_spelling"] == "Sig" and mut in ("s>=n", "r>=p"):
+        # a Sig object can carry what 64 bytes cannot: the same valid signature with s+n / r+p -- BIP340 fails r >= p and s >= n
+        r0, s0 = int.from_bytes(sig[:32], "big"), int.from_bytes(sig[32:], "big")
+        wide = (r0, s0 + N * (1 + bit % 2)) if mut == "s>=n" else (r0 + P * (1 + bit % 2), s0)
+        r, s = r0, s0
     if not (0 <= x < 2**256 and 0 <= r < 2**256 and 0 <= s < 2**256):
         return Outcome(False, ("unrepresentable",))
-    want = b340.schnorr_verify(msg, x.to_bytes(32, "big"), r.to_bytes(32, "big") + s.to_bytes(32, "big"))
+    want = wide is None and b340.schnorr_verify(msg, x.to_bytes(32, "big"), r.to_bytes(32, "big") + s.to_bytes(32, "big"))
     # key spellings: the point spellings exist only when x lifts
     sp = case["spelling"]
     Pt = b340.lift_x(x) if x < P else None
@@ -159,7 +165,7 @@ def check_verify(case):
         if sp == "prepared":
             key = PreparedPoint(Pt)
         ssp = case["sig_spelling"]
-        sg = {"Sig": ssa.Sig(r, s, check_validity=False), "bytes": r.to_bytes(32, "big") + s.to_bytes(32, "big"), "hex": (r.to_bytes(32, "big") + s.to_bytes(32, "big")).hex()}[ssp]
+        sg = {"Sig": ssa.Sig(*(wide or (r, s)), check_validity=False), "bytes": r.to_bytes(32, "big") + s.to_bytes(32, "big"), "hex": (r.to_bytes(32, "big") + s.to_bytes(32, "big")).hex()}[ssp]
         try:
             got = ssa.verify_(msg, key, sg)
         except Exception as e:  # noqa: BLE001
@@ -176,7 +182,7 @@ def batch_case(draw):
     bad = draw(st.sampled_from(["none", "none", "first", "last", "middle", "several", "swap-sigs", "swap-msgs", "cancel-pair"]))
     return {
         "size": size, "bad": bad, "seed": draw(st.integers(0, 2**64)), "dups": draw(st.booleans()), "perm": draw(st.integers(0, 10**6)),
-        "badkind": draw(st.sampled_from(["bit-s", "bit-r-liftable", "other-msg", "neg-s", "r-unliftable", "x-unliftable", "s>=n"])),
+        "badkind": draw(st.sampled_from(["bit-s", "bit-r-liftable", "other-msg", "neg-s", "r-unliftable", "x-unliftable", "s>=n", "s+n", "s+2n", "r+p", "r+2^256", "s-n"])),
         "backend": draw(st.booleans()), "blind_seed": draw(st.integers(0, 2**32)),
     }
 
@@ -194,6 +200,7 @@ def check_batch(case):
         msg = _det(seed, j, "m")[: 1 + j % 32] if j % 5 else _det(seed, j, "m")
         sig = b340.schnorr_sign(msg, q.to_bytes(32, "big"), _det(seed, j, "a"))
         items.append([msg, b340.pubkey_gen(q.to_bytes(32, "big")), sig])
+    over = {}
     bad_idx = {"none": [], "first": [0], "last": [size - 1], "middle": [size // 2], "several": list(range(0, size, 2))}.get(case["bad"], [])
     for i in bad_idx:
         msg, pk, sig = items[i]
@@ -209,6 +216,9 @@ def check_batch(case):
                 r = (r + 1) % P
         elif bk == "r-unliftable": r = _unliftable(r)
         elif bk == "x-unliftable": pk = _unliftable(int.from_bytes(pk, "big")).to_bytes(32, "big")
+        elif bk in ("s+n", "s+2n", "r+p", "r+2^256", "s-n"):
+            # non-canonical spellings of an otherwise valid signature: only a Sig object can carry them
+            over[i] = {"s+n": (r, s + N), "s+2n": (r, s + 2 * N), "r+p": (r + P, s), "r+2^256": (r + 2**256, s), "s-n": (r, s - N)}[bk]
         items[i] = [msg, pk, r.to_bytes(32, "big") + s.to_bytes(32, "big")]
     if case["bad"] == "swap-sigs" and size >= 2:
         items[0][2], items[1][2] = items[1][2], items[0][2]
@@ -221,10 +231,14 @@ def check_batch(case):
         items[0][0], items[1][0] = items[1][0], items[0][0]
     # permutation
     import random as _r
-    _r.Random(case["perm"]).shuffle(items)
-    want = all(b340.schnorr_verify(m, pk, sg) for m, pk, sg in items)
+    for i, it in enumerate(items):
+        it.append(over.get(i))
+    if case["bad"] not in ("first", "last"):
+        _r.Random(case["perm"]).shuffle(items)
+    want = all(ov is None and b340.schnorr_verify(m, pk, sg) for m, pk, sg, ov in items)
+    items = [(m, pk, sg if ov is None else ov) for m, pk, sg, ov in items]
     with backend(case["backend"]):
-        sigs = [ssa.Sig(int.from_bytes(sg[:32], "big"), int.from_bytes(sg[32:], "big"), check_validity=False) for _, _, sg in items]
+        sigs = [ssa.Sig(*sg, check_validity=False) if isinstance(sg, tuple) else ssa.Sig(int.from_bytes(sg[:32], "big"), int.from_bytes(sg[32:], "big"), check_validity=False) for _, _, sg in items]
         try:
             got = ssa.batch_verify_([m for m, _, _ in items], [pk for _, pk, _ in items], sigs)
         except Exception as e:  # noqa: BLE001
